@@ -13,6 +13,7 @@ while i < len(a):
     elif a[i] == "--opt": opts += ["--opt", a[i+1]]; i += 2
     elif a[i] == "--show": show = a[i+1]; i += 2
     else: i += 1
+subprocess.run(["cargo", "build", "--offline", "--quiet"], cwd=ROOT + "/sim", check=True, stderr=subprocess.DEVNULL)  # never sweep a stale binary
 env = dict(os.environ); env["LD_PRELOAD"] = ROOT + "/shim/libdetrand.so"; env["LANCE_PROCESS_IO_THREADS_LIMIT"] = "0"; env["LANCE_CPU_THREADS"] = "1"
 def run(seed):
     r = subprocess.run(["setarch", "-R", ROOT + "/target/debug/lancesim", "run", "--engine", engine, "--prop", prop, "--seed", str(seed)] + opts, env=env, capture_output=True, text=True)
